@@ -105,6 +105,10 @@ func (g *gen) instr(b *ssa.BasicBlock, idx int, ins ssa.Instruction) {
 		if _, ok := structOf(pt); !ok {
 			if _, isArr := pt.Underlying().(*types.Array); !isArr {
 				v.Place = &Place{Kind: plCell, Ref: ref, Elem: pt}
+				if !cellWrittenElsewhere(ins) {
+					// a local variable that no closure assigns and whose address does not escape: calls cannot change it
+					g.stableCells = append(g.stableCells, stableCell{ref: ref, key: cellKey(g.st.sortOf(pt))})
+				}
 			}
 		}
 		g.setVal(ins, v)
@@ -865,6 +869,59 @@ func isConstLike(v ssa.Value) bool {
 	switch v.(type) {
 	case *ssa.Const, *ssa.Global, *ssa.Function:
 		return true
+	}
+	return false
+}
+
+type stableCell struct{ ref, key string }
+
+// cellWrittenElsewhere: can code outside this function body (closures, callees) store into the local variable?
+func cellWrittenElsewhere(a *ssa.Alloc) bool {
+	if a.Referrers() == nil {
+		return false
+	}
+	var fvWritten func(fn *ssa.Function, fv *ssa.FreeVar, depth int) bool
+	fvWritten = func(fn *ssa.Function, fv *ssa.FreeVar, depth int) bool {
+		if depth > 5 || fv.Referrers() == nil {
+			return true
+		}
+		for _, r := range *fv.Referrers() {
+			switch r := r.(type) {
+			case *ssa.Store:
+				if r.Addr == ssa.Value(fv) {
+					return true
+				}
+			case *ssa.UnOp, *ssa.DebugRef:
+			case *ssa.MakeClosure:
+				inner := r.Fn.(*ssa.Function)
+				for i, b := range r.Bindings {
+					if b == ssa.Value(fv) && fvWritten(inner, inner.FreeVars[i], depth+1) {
+						return true
+					}
+				}
+			default:
+				return true // address used in some other way (passed on, field address, ...)
+			}
+		}
+		return false
+	}
+	for _, r := range *a.Referrers() {
+		switch r := r.(type) {
+		case *ssa.Store:
+			if r.Val == ssa.Value(a) {
+				return true // the address itself is stored somewhere
+			}
+		case *ssa.UnOp, *ssa.DebugRef:
+		case *ssa.MakeClosure:
+			inner := r.Fn.(*ssa.Function)
+			for i, b := range r.Bindings {
+				if b == ssa.Value(a) && fvWritten(inner, inner.FreeVars[i], 0) {
+					return true
+				}
+			}
+		default:
+			return true
+		}
 	}
 	return false
 }
